@@ -74,6 +74,17 @@ def marker(u, v):
     return "%s|%s|2|%s#f|%s" % (u, v, v, v)
 
 
+def _lock_factory(s):
+    """threading.Lock as mako.lookup sees it: creating a lock is itself a scheduling point (a lock made on first
+    use can be made twice)"""
+
+    def make():
+        s.yield_point("Lock.create")
+        return s.lock()
+
+    return make
+
+
 class World:
     """a fresh lookup over a fresh directory, with scheduler-aware seams"""
 
@@ -119,7 +130,7 @@ class World:
         # scheduler's lock (the harness does not touch the lookup's attributes)
         import threading as _threading
 
-        self.sm.set(mlookup, "threading", seams.Forward(_threading, {"Lock": s.lock, "RLock": s.lock}))
+        self.sm.set(mlookup, "threading", seams.Forward(_threading, {"Lock": _lock_factory(s), "RLock": _lock_factory(s)}))
         self.lookup = mlookup.TemplateLookup(directories=[self.dir], collection_size=size)
         if not fine:
             self.lookup._collection = _ydict(s, self.lookup._collection, size, mutil)
@@ -426,7 +437,7 @@ class RenderWorld:
         self.files = []
         import threading as _threading
 
-        self.sm.set(mlookup, "threading", seams.Forward(_threading, {"Lock": s.lock, "RLock": s.lock}))
+        self.sm.set(mlookup, "threading", seams.Forward(_threading, {"Lock": _lock_factory(s), "RLock": _lock_factory(s)}))
         if lru:
             # a bounded lookup over files (its template cache and its URI cache are both LRU caches of size 1:
             # every render evicts and reloads); same templates, same decoys
